@@ -113,6 +113,18 @@ class Opaque:
         return f"<opaque {self.tag}>"
 
 
+class Opt:
+    """None-or-value with a symbolic presence flag (loop-carried variables such as `best = None` ... `best = (a, b)`)."""
+    __slots__ = ("flag", "value")
+
+    def __init__(self, flag, value):
+        self.flag = flag        # z3 Bool: True <=> the variable holds `value`, False <=> it is None
+        self.value = value
+
+    def __repr__(self):
+        return f"Opt({self.flag}, {self.value!r})"
+
+
 def is_sym(v):
     return isinstance(v, z3.ExprRef)
 
